@@ -82,6 +82,14 @@ def _known_pairs(missing, spurious):
             sp.remove(y)
             classes.add("documented-primitive-xml-compiled-as-reference")
             continue
+        # a path variable's reference to a type of another application compiled as a dotted local path
+        if x[0] == "urlparam" and x[-1].startswith("ref:") and "/" in x[-1]:
+            y = x[:-1] + (x[-1].replace(" :: ", ".").replace("/", ".", 1),)
+            if y in sp:
+                m.remove(x)
+                sp.remove(y)
+                classes.add("path-variable-cross-application-reference-folded")
+                continue
         # wrapped U.x compiled as application U, type x
         if "(ref:" in x[-1]:
             cand = [z for z in sp if z[:-1] == x[:-1] and z[-1].replace("/", ".") == x[-1].replace("/", ".")]
@@ -174,6 +182,9 @@ def check_c02(ctx):
         s["id"] += len(scn)
         s["lint"] = True
     scn = scn + calls
+    # REST path trees: 0..7 inherited path variables, then sibling sub-paths with a variable and a method each
+    trees = core.generate(ctx, "RestTreeGen", "GenRestTree.cfg", timeout=600)
+    scn = scn + [{"id": len(scn) + i + 1, "decls": t["decls"], "seed": ctx.seed, "variants": 0, "text": False} for i, t in enumerate(trees)]
     events, prints, nev = run_programs(ctx, scn)
     _judge(ctx, "C02", scn, events, prints,
            lambda n: n.startswith(("Missing:", "Spurious:")) or n in ("Rejected", "IllFormedProgram"))
@@ -187,7 +198,7 @@ def check_c02(ctx):
     cov = {"states": mc.distinct, "transitions": mc.generated, "traces_validated_against_impl": len(scn),
            "trace_events": nev, "declarations": sum(len(s["decls"]) for s in scn),
            "distinct_declaration_kind_x_scope": nk, "distinct_type_shapes": ns, "programs_given_a_namesake_application": nadded,
-           "programs_with_linter_warnings_compared": len(calls), "linter_warnings": sum(len(e.get("warnings", [])) for e in events if e["e"] == "lint"),
+           "programs_with_linter_warnings_compared": len(calls), "rest_path_trees": len(trees), "linter_warnings": sum(len(e.get("warnings", [])) for e in events if e["e"] == "lint"),
            "samples": [{"decls": scn[0]["decls"][:12]}] if scn else []}
     return core.finish(ctx, "model_checking", cov, ASSUME)
 
